@@ -48,8 +48,53 @@ fn key_overhead(v: usize) -> usize {
 
 type Arr = [Option<ValidatedShred>; TOTAL_SHREDS];
 
-fn do_shred<S: Shredder>(slice: &Slice, sk: &SecretKey) -> Result<Result<Vec<ValidatedShred>, ShredError>, ()> {
+// Besides a fresh instance per call, every call is repeated on ONE long-lived instance per shredder type
+// (as the node reuses its shredders): the outcome must not depend on the instance's history.
+thread_local! {
+    static REUSED: std::cell::RefCell<HashMap<std::any::TypeId, Box<dyn std::any::Any>>> = std::cell::RefCell::new(HashMap::new());
+}
+fn with_reused<S: Shredder + 'static, R>(f: impl FnOnce(&mut S) -> R) -> Result<R, ()> {
+    let mut inst: Box<S> = REUSED.with(|m| m.borrow_mut().remove(&std::any::TypeId::of::<S>())).and_then(|b| b.downcast::<S>().ok()).unwrap_or_else(|| Box::new(S::default()));
+    let r = catch_unwind(AssertUnwindSafe(|| f(&mut inst)));
+    match r {
+        Ok(x) => { REUSED.with(|m| m.borrow_mut().insert(std::any::TypeId::of::<S>(), inst)); Ok(x) }
+        Err(_) => Err(()), // a panicking instance is dropped; the next call starts a new one
+    }
+}
+fn do_shred<S: Shredder + 'static>(slice: &Slice, sk: &SecretKey) -> Result<Result<Vec<ValidatedShred>, ShredError>, ()> {
     catch_unwind(AssertUnwindSafe(|| S::default().shred(slice, sk).map(|a| a.to_vec()))).map_err(|_| ())
+}
+/// One long-lived instance (as the node reuses its shredders) against a fresh instance per call, over a
+/// deterministic sequence of shred / deshred calls with alternating slice sizes: the outcome must not depend
+/// on the instance's history.  Returns (calls made, findings).
+fn reuse_sequence<S: Shredder + 'static>(name: &str, max: usize, seed: u64, sk: &SecretKey, rounds: usize) -> (u64, Vec<String>) {
+    let mut rng = crate::rng::Rng::new(seed ^ 0x5EED_11);
+    let mut findings = Vec::new();
+    let mut calls = 0u64;
+    let sizes = [max, 0usize, 200.min(max), max, 1, max / 2, max, 64.min(max), max.saturating_sub(1), 3, max];
+    let mut stored: Vec<Vec<ValidatedShred>> = Vec::new();
+    for r in 0..rounds {
+        let len = sizes[r % sizes.len()];
+        let slice = Slice { slot: Slot::new(3 + r as u64), slice_index: slice_index(0), is_last: r % 2 == 0, parent: None, data: rng.bytes(len) };
+        // deshred something of ANOTHER size first (every other round), then shred
+        if r % 2 == 1 && !stored.is_empty() {
+            let src = &stored[rng.below(stored.len() as u64) as usize];
+            let mut a1: Arr = std::array::from_fn(|i| if i % 2 == 0 || i >= 32 { Some(src[i].clone()) } else { None });
+            let mut a2: Arr = a1.clone();
+            let fresh = catch_unwind(AssertUnwindSafe(|| S::default().deshred(&mut a1).map(|x| x.data.clone()).map_err(err_code))).map_err(|_| ());
+            let reused = with_reused::<S, _>(|i| i.deshred(&mut a2).map(|x| x.data.clone()).map_err(err_code));
+            calls += 1;
+            if fresh != reused { findings.push(format!("shredder:{}:reused-instance-differs:deshred", name)); }
+        }
+        let fresh = catch_unwind(AssertUnwindSafe(|| S::default().shred(&slice, sk).map(|a| a.to_vec()))).map_err(|_| ());
+        let reused = with_reused::<S, _>(|i| i.shred(&slice, sk).map(|a| a.to_vec()));
+        calls += 1;
+        let shape = |r: &Result<Result<Vec<ValidatedShred>, ShredError>, ()>| -> String { match r { Err(()) => "panic".into(), Ok(Err(_)) => "err".into(), Ok(Ok(v)) => format!("ok:{}:{}", v.len(), v.first().map(|x| wincode::serialize(x.as_shred()).map(|b| b.len()).unwrap_or(0)).unwrap_or(0)) } };
+        if shape(&fresh) != shape(&reused) { findings.push(format!("shredder:{}:reused-instance-differs:shred:{}-vs-{}", name, shape(&fresh), shape(&reused))); }
+        if let Ok(Ok(v)) = reused { stored.push(v); } else if let Ok(Ok(v)) = fresh { stored.push(v); }
+    }
+    findings.sort(); findings.dedup();
+    (calls, findings)
 }
 fn shred_v(v: usize, slice: &Slice, sk: &SecretKey) -> Result<Result<Vec<ValidatedShred>, ShredError>, ()> {
     match v {
@@ -84,7 +129,7 @@ fn err_code(e: DeshredError) -> u64 {
 }
 const ERR_NAMES: [&str; 5] = ["InvalidLayout", "NotEnoughShreds", "TooMuchData", "BadEncoding", "InvalidMerkleTree"];
 
-fn do_deshred<S: Shredder>(arr: &mut Arr) -> DRes {
+fn do_deshred<S: Shredder + 'static>(arr: &mut Arr) -> DRes {
     let r = catch_unwind(AssertUnwindSafe(|| S::default().deshred(arr)));
     match r {
         Err(_) => DRes::Panic,
@@ -1315,6 +1360,19 @@ pub fn gen_c11(seed: u64, tier: Tier) -> CaseSet {
     stats.distribution.push(("regenerated_shreds_validated_by_try_new".into(), cnt.regenerated.to_string()));
     stats.distribution.push(("empirical_mds_checks(reed-solomon-simd decodes the subset to the leader's originals)".into(), cnt.mds_checks.to_string()));
     stats.distribution.push(("sweep_lengths".into(), cnt.sweep.to_string()));
+    // instance-history independence (deterministic, sequential)
+    {
+        let sk = SecretKey::new(&mut rand::rng());
+        let rounds = if matches!(tier, Tier::Quick) { 24 } else { 200 };
+        let mut total = 0u64;
+        let mut fs: Vec<String> = Vec::new();
+        let (c, f) = reuse_sequence::<RegularShredder>("Regular", RegularShredder::MAX_DATA_SIZE, seed, &sk, rounds); total += c; fs.extend(f);
+        let (c, f) = reuse_sequence::<CodingOnlyShredder>("CodingOnly", CodingOnlyShredder::MAX_DATA_SIZE, seed, &sk, rounds); total += c; fs.extend(f);
+        let (c, f) = reuse_sequence::<AontShredder>("Aont", AontShredder::MAX_DATA_SIZE, seed, &sk, rounds); total += c; fs.extend(f);
+        let (c, f) = reuse_sequence::<PetsShredder>("Pets", PetsShredder::MAX_DATA_SIZE, seed, &sk, rounds); total += c; fs.extend(f);
+        stats.distribution.push(("reused_instance_calls_compared_with_fresh_instance".into(), total.to_string()));
+        for f in fs { findings.push((0, f)); }
+    }
     stats.harness_findings = findings;
     CaseSet {
         header: "From Coq Require Import Uint63.\nFrom AG Require Import Model.Shredder Oracle.C11.\n".to_string(),
